@@ -699,14 +699,24 @@ type Run struct {
 }
 
 func (w *World) options(r Run) []core.PurgeOption {
+	// like a library caller, an option is only passed when it differs from the documented default: every
+	// purge call must start from the defaults, whatever an earlier call in the same process asked for
 	opts := []core.PurgeOption{
-		core.WithPurgeForce(r.Force || r.Resume),
 		core.WithPurgeLogger(hx.Nop),
 		core.WithPurgeLocalStore(r.Dir),
 		core.WithPurgeParallel(r.Parallel),
-		core.WithPurgeResumeIndex(r.Resume),
-		core.WithPurgeDryRun(r.DryRun),
-		core.WithPurgeExtraContexts(w.Extra()),
+	}
+	if r.Force || r.Resume {
+		opts = append(opts, core.WithPurgeForce(true))
+	}
+	if r.Resume {
+		opts = append(opts, core.WithPurgeResumeIndex(true))
+	}
+	if r.DryRun {
+		opts = append(opts, core.WithPurgeDryRun(true))
+	}
+	if extra := w.Extra(); len(extra) > 0 {
+		opts = append(opts, core.WithPurgeExtraContexts(extra))
 	}
 	if r.Chunk > 0 {
 		opts = append(opts, core.WithPurgeIndexChunkSize(r.Chunk))
